@@ -215,7 +215,10 @@ thread_local! {
 }
 
 fn step(cx: &Ctx, f: &Family, h: &[usize]) -> Option<(Vec<u8>, u64)> {
-    for _ in 0..20 {
+    for attempt in 0..200 {
+        if attempt > 20 {
+            std::thread::sleep(Duration::from_millis(2)); // machine heavily oversubscribed: back off a little
+        }
         PENDING_EVALS.with(|c| c.set(0));
         let r = catch(|| step_once(cx, f, h));
         if !matches!(r, Ok(StepOut::Retry)) {
@@ -236,7 +239,7 @@ fn step(cx: &Ctx, f: &Family, h: &[usize]) -> Option<(Vec<u8>, u64)> {
             }
         }
     }
-    cx.run.machinery_error("a replay was too slow for the zero-refill reference 20 times in a row");
+    cx.run.machinery_error("a replay was too slow for the zero-refill reference 200 times in a row");
     None
 }
 
@@ -447,6 +450,13 @@ fn run_timed(cx: &Ctx, cfg: &EngineConfig, sleep: Duration, h: &[TOp]) {
 // ---------------------------------------------------------------------------------------------
 
 fn main() {
+    // Every fresh limiter allocates four 100 000-slot LRU tables (~8 MB); keep glibc from mmap/munmap-ing them on
+    // every replay (16 threads doing that serialise on the process' address-space lock).
+    unsafe {
+        libc::mallopt(libc::M_MMAP_THRESHOLD, 256 << 20);
+        libc::mallopt(libc::M_TRIM_THRESHOLD, 1 << 30);
+        libc::mallopt(libc::M_TOP_PAD, 64 << 20);
+    }
     let run = Run::new("C14", "model_checking");
     quiet_panics();
     // hang breaker: a subject call that never returns (e.g. a self-deadlock) would block the search outside any budget check
